@@ -11,7 +11,10 @@ EXTRA = {'C05_1': ['C07'], 'C06_1': ['C08'], 'C10_2': ['C13'], 'C17_2': ['C02'],
          'C17_3': ['C02'], 'C09_4': ['C02'], 'C12_4': ['C04'], 'C15_3': ['C16'], 'C01_3': ['C17'],
          # round 3
          'C06_5': ['C05', 'C08'], 'C02_6': ['C08'], 'C05_6': ['C07'], 'C10_5': ['C07'], 'C12_5': ['C10', 'C07'], 'C01_5': ['C17'],
-         'C01_6': ['C03'], 'C17_6': ['C01'], 'C11_5': ['C02'], 'C04_6': ['C16']}
+         'C01_6': ['C03'], 'C17_6': ['C01'], 'C11_5': ['C02'], 'C04_6': ['C16'],
+         # round 4
+         'C01_7': ['C17'], 'C10_7': ['C16'], 'C06_7': ['C16', 'C04'], 'C16_7': ['C04'], 'C08_7': ['C06'], 'C17_7': ['C01'], 'C02_7': ['C16'], 'C03_7': ['C13'],
+         'C05_7': ['C16'], 'C13_7': ['C07'], 'C07_7': ['C13']}
 def sh(cmd):
     return subprocess.run(cmd, shell=True, text=True, capture_output=True)
 def main():
